@@ -84,7 +84,9 @@ class _BaseScipyGridder(BaseGridder):
         self.region_ = get_region((easting, northing))
         points = np.column_stack((np.ravel(easting), np.ravel(northing)))
         interpolator_class, kwargs = self._get_interpolator()
-        self.interpolator_ = interpolator_class(points, np.ravel(data), **kwargs)
+        # Copy the data so that the interpolator doesn't keep a view of the
+        # caller's array (changing it later would change the predictions)
+        self.interpolator_ = interpolator_class(points, np.array(np.ravel(data)), **kwargs)
         return self
 
     def predict(self, coordinates):
